@@ -584,7 +584,7 @@ def regressions(chk):
             chk.violation("failing-input", {"what": "regression: the argument of a procedure in an interface block is "
                                                     "not linked from the documentation of that procedure",
                                             "impl": list(x[:3])}, True)
-        for ctx_name, par, ref in [("res_helper", "helper", "[[init]]"), ("y", "helper", "[[helper:init]]")]:
+        for ctx_name, par, ref in [("res_helper", "helper", "[[init]]"), ("y", "helper", "[[init(variable)]]")]:
             r = L.convert(md, base, ab, ent(ctx_name, par), ref)
             if r[0] != "plain":
                 chk.violation("failing-input", {"what": "regression: a reference to the local variable of a function "
